@@ -1215,6 +1215,276 @@ fn check_lifecycle(case: &LifeCase, ctx: &mut CaseCtx<'_>) -> Result<(), String>
     Ok(())
 }
 
+
+// ---------------------------------------------------------------------------------------
+// scale: one burst of 70 000 - 150 000 recovered entries through the server's entry point
+// ---------------------------------------------------------------------------------------
+
+#[derive(Clone, Debug, Serialize, Deserialize, Hash)]
+struct ScaleCase {
+    /// distinct keys
+    keys: u32,
+    /// updates per key (1 = every key written once)
+    per_key: u32,
+    /// how many of the first updates are folded into the checkpoint (and sit in covered segments)
+    in_checkpoint: u32,
+    /// live segments holding the rest
+    segments: u32,
+    /// the last updates that are only in the WAL
+    wal_tail: u32,
+    multi_thread: bool,
+}
+
+fn scale_cases() -> Vec<ScaleCase> {
+    vec![
+        ScaleCase { keys: 70_000, per_key: 1, in_checkpoint: 20_000, segments: 40, wal_tail: 2_000, multi_thread: false },
+        ScaleCase { keys: 100_000, per_key: 1, in_checkpoint: 20_000, segments: 48, wal_tail: 3_000, multi_thread: true },
+        ScaleCase { keys: 150_000, per_key: 1, in_checkpoint: 25_000, segments: 60, wal_tail: 1_000, multi_thread: false },
+        ScaleCase { keys: 100, per_key: 1_000, in_checkpoint: 20_000, segments: 30, wal_tail: 2_000, multi_thread: false },
+        ScaleCase { keys: 100, per_key: 1_000, in_checkpoint: 20_000, segments: 30, wal_tail: 2_000, multi_thread: true },
+    ]
+}
+
+fn mix(h: &mut u64, bytes: &[u8]) {
+    for b in bytes {
+        *h ^= *b as u64;
+        *h = h.wrapping_mul(0x100000001b3);
+    }
+    *h ^= 0xff;
+    *h = h.wrapping_mul(0x100000001b3);
+}
+
+/// checksum of one (key, value, stamps) entry, built from public fields only
+fn entry_sum(key: &str, v: &ReplicatedValue) -> u64 {
+    let mut h: u64 = 0xcbf29ce484222325;
+    mix(&mut h, key.as_bytes());
+    let reg = |h: &mut u64, r: &redis_sim::replication::LwwRegister<SDS>| {
+        match &r.value {
+            Some(s) => mix(h, s.as_bytes()),
+            None => mix(h, b"\x00none"),
+        }
+        mix(h, &r.timestamp.time.to_le_bytes());
+        mix(h, &r.timestamp.replica_id.0.to_le_bytes());
+        mix(h, &[r.tombstone as u8]);
+    };
+    match &v.crdt {
+        CrdtValue::Lww(l) => {
+            mix(&mut h, b"lww");
+            reg(&mut h, l);
+        }
+        CrdtValue::Hash(m) => {
+            mix(&mut h, b"hash");
+            let mut fields: Vec<_> = m.iter().collect();
+            fields.sort_by(|a, b| a.0.cmp(b.0));
+            for (f, r) in fields {
+                mix(&mut h, f.as_bytes());
+                reg(&mut h, r);
+            }
+        }
+        _ => mix(&mut h, b"other"),
+    }
+    mix(&mut h, &v.expiry_ms.unwrap_or(u64::MAX).to_le_bytes());
+    mix(&mut h, &v.timestamp.time.to_le_bytes());
+    mix(&mut h, &v.timestamp.replica_id.0.to_le_bytes());
+    h
+}
+
+/// (count, checksum over the sorted entries)
+fn state_sum(st: &State) -> (usize, u64) {
+    let mut h: u64 = 0xcbf29ce484222325;
+    for (k, v) in st {
+        mix(&mut h, &entry_sum(k, v).to_le_bytes());
+    }
+    (st.len(), h)
+}
+
+fn check_scale(case: &ScaleCase, ctx: &mut CaseCtx<'_>) -> Result<(), String> {
+    use redis_sim::replication::{ConsistencyLevel, ShardReplicaState};
+    // ---- ground truth through the real API: 16 shard clocks of replica 1
+    let mut shards: Vec<ShardReplicaState> =
+        (0..16).map(|_| ShardReplicaState::new(ReplicaId::new(1), ConsistencyLevel::Eventual)).collect();
+    let n = (case.keys as usize) * (case.per_key as usize);
+    let mut d: Vec<ReplicationDelta> = Vec::with_capacity(n);
+    let mut keys: Vec<(String, bool)> = Vec::with_capacity(case.keys as usize);
+    for k in 0..case.keys {
+        let is_hash = k % 7 == 3;
+        keys.push((format!("{}:{:06}", if is_hash { "h" } else { "s" }, k), is_hash));
+    }
+    for round in 0..case.per_key {
+        for (i, (key, is_hash)) in keys.iter().enumerate() {
+            let sh = worldgen::node_shard(key) as usize;
+            let x = (i as u64).wrapping_mul(0x9E3779B97F4A7C15) ^ (round as u64);
+            if *is_hash {
+                let f = format!("f{}", (x >> 7) % 4);
+                d.push(shards[sh].record_hash_write(key.clone(), vec![(f, SDS::new(x.to_le_bytes()[..5].to_vec()))]));
+                if x % 11 == 0 {
+                    // delete another field (at least the one just written stays alive)
+                    if let Some(del) = shards[sh].record_hash_delete(key.clone(), vec![format!("f{}", ((x >> 7) + 1) % 4)]) {
+                        d.push(del);
+                    }
+                }
+            } else if x % 23 == 5 && round + 1 == case.per_key {
+                shards[sh].record_write(key.clone(), SDS::from_str("doomed"), None);
+                if let Some(del) = shards[sh].record_delete(key.clone()) {
+                    d.push(del);
+                }
+            } else {
+                let expiry = if x % 9 == 0 { Some(1000 * (1 + x % 1000)) } else { None };
+                d.push(shards[sh].record_write(key.clone(), SDS::new(x.to_le_bytes().to_vec()), expiry));
+            }
+        }
+    }
+    drop(shards);
+    let n = d.len();
+    let truth = fold(d.iter());
+    // ---- store: checkpoint over 4 covered (compacted away) segments, live segments, WAL tail
+    let store = InMemoryObjectStore::new();
+    let mm = ManifestManager::new(store.clone(), PREFIX);
+    let mut manifest = Manifest::new(1);
+    let n_ck = (case.in_checkpoint as usize).min(n / 2);
+    let n_wal = (case.wal_tail as usize).min(n / 4);
+    let mut write_segment = |m: &mut Manifest, id: u64, part: &[ReplicationDelta]| -> Result<(), String> {
+        let mut w = SegmentWriter::new(Compression::None);
+        for x in part {
+            w.write_delta(x).map_err(|e| e.to_string())?;
+        }
+        let img = w.finish().map_err(|e| e.to_string())?;
+        let key = format!("{}/segments/segment-{:08}.seg", PREFIX, id);
+        ready(store.put(&key, &img)).map_err(|e| e.to_string())?;
+        m.add_segment(SegmentInfo {
+            id,
+            key,
+            record_count: part.len() as u32,
+            size_bytes: img.len() as u64,
+            min_timestamp: part.iter().map(|x| x.value.timestamp.time).min().unwrap_or(0),
+            max_timestamp: part.iter().map(|x| x.value.timestamp.time).max().unwrap_or(0),
+        });
+        Ok(())
+    };
+    let covered = 4usize;
+    for (j, part) in d[..n_ck].chunks(n_ck.div_ceil(covered).max(1)).enumerate() {
+        write_segment(&mut manifest, j as u64, part)?;
+    }
+    let last_covered = manifest.segments.last().map(|s| s.id).unwrap_or(0);
+    let live = &d[n_ck..n - n_wal];
+    let per = live.len().div_ceil(case.segments.max(1) as usize).max(1);
+    for (j, part) in live.chunks(per).enumerate() {
+        write_segment(&mut manifest, last_covered + 1 + j as u64, part)?;
+    }
+    let ck_state: HashMap<String, ReplicatedValue> = fold(d[..n_ck].iter()).into_iter().collect();
+    let ck_keys = ck_state.len();
+    let img = CheckpointWriter::new(Compression::None)
+        .write(ck_state, 1, last_covered)
+        .map_err(|e| e.to_string())?;
+    let ck_key = format!("{}/checkpoints/chk-{:016}.chk", PREFIX, 1);
+    ready(store.put(&ck_key, &img)).map_err(|e| e.to_string())?;
+    let gone: Vec<String> = manifest.segments.iter().filter(|s| s.id <= last_covered).map(|s| s.key.clone()).collect();
+    manifest.compact_segments(CheckpointInfo {
+        key: ck_key,
+        timestamp_ms: 1,
+        key_count: ck_keys as u64,
+        last_segment_id: last_covered,
+    });
+    for k in gone {
+        ready(store.delete(&k)).map_err(|e| e.to_string())?;
+    }
+    ready(mm.save(&manifest)).map_err(|e| e.to_string())?;
+    // WAL: the tail that was never streamed + an overlap with the last live segment
+    let wal = InMemoryWalStore::new();
+    {
+        let mut rot = WalRotator::new(wal.clone(), 1 << 20).map_err(|e| e.to_string())?;
+        let from = (n - n_wal).saturating_sub(500).max(n_ck);
+        for x in &d[from..] {
+            let e = WalEntry::from_delta(x, x.value.timestamp.time).map_err(|e| e.to_string())?;
+            rot.append(&e).map_err(|e| e.to_string())?;
+        }
+        rot.sync().map_err(|e| e.to_string())?;
+    }
+    drop(d);
+
+    // ---- the server's start-up sequence into a fresh node
+    let body = async {
+        let node = ReplicatedShardedState::new(ReplicationConfig::default());
+        let integ = StreamingIntegration::with_store(Arc::new(store.clone()), streaming_config(), 1);
+        let stats = integ.recover(&node).await.map_err(|e| format!("StreamingIntegration::recover: {}", e))?;
+        let rot = WalRotator::new(wal.clone(), 1 << 20).map_err(|e| e.to_string())?;
+        let entries = rot.recover_all_entries().map_err(|e| format!("WAL replay: {}", e))?;
+        let deltas: Vec<ReplicationDelta> = entries.iter().filter_map(|e| e.to_delta().ok()).collect();
+        let wal_n = deltas.len();
+        node.apply_recovered_state(None, deltas);
+        let snapshot: State = node.snapshot_state().await.into_iter().collect();
+        // sampled reads + DBSIZE
+        let mut sampled = Vec::new();
+        for (i, (k, h)) in keys.iter().enumerate() {
+            if i % 97 == 0 || keys.len() <= 1000 {
+                let c = vcore::resp::parse_zc(&[if *h { b"HGETALL".to_vec() } else { b"GET".to_vec() }, k.as_bytes().to_vec()])?;
+                let r = Reply::from_resp(&node.execute(c).await);
+                sampled.push((i, if *h { r.sorted_pairs() } else { r }));
+            }
+        }
+        let dbsize = Reply::from_resp(&node.execute(vcore::resp::parse_zc(&[b"DBSIZE".to_vec()])?).await);
+        Ok::<_, String>((stats, wal_n, snapshot, sampled, dbsize))
+    };
+    let (stats, wal_n, snapshot, sampled, dbsize) = if case.multi_thread {
+        let rt = tokio::runtime::Builder::new_multi_thread()
+            .worker_threads(4)
+            .enable_all()
+            .build()
+            .map_err(|e| e.to_string())?;
+        let out = rt.block_on(body);
+        drop(rt);
+        out?
+    } else {
+        vcore::block_on(body)?
+    };
+    ctx.add_evaluations((stats.deltas_replayed as usize + ck_keys + wal_n) as u64);
+    ctx.label(if case.multi_thread { "multi_thread_runtime" } else { "current_thread_runtime" });
+    ctx.label(if case.per_key > 1 { "many_updates_per_key" } else { "many_keys" });
+
+    // ---- the node holds exactly the merge of what was persisted
+    let (want, got) = (state_sum(&truth), state_sum(&snapshot));
+    if want != got {
+        let (mut missing, mut differing, mut example) = (0usize, 0usize, None);
+        for (k, v) in &truth {
+            match snapshot.get(k) {
+                None => {
+                    missing += 1;
+                    example.get_or_insert_with(|| format!("key {:?} is missing", k));
+                }
+                Some(g) if entry_sum(k, g) != entry_sum(k, v) => {
+                    differing += 1;
+                    example.get_or_insert_with(|| {
+                        format!("key {:?}: persisted {} but the node holds {}", k, worldgen::access_view(v)["crdt"], worldgen::access_view(g)["crdt"])
+                    });
+                }
+                _ => {}
+            }
+        }
+        return Err(format!(
+            "after StreamingIntegration::recover ({} deltas from {} segments reported replayed, {} checkpoint keys) + WAL replay ({} entries) on a {} runtime, snapshot_state() holds {} keys (checksum {:016x}) but {} keys were persisted (checksum {:016x}): {} keys missing, {} keys with older/different content; e.g. {}",
+            stats.deltas_replayed, stats.segments_loaded, ck_keys, wal_n,
+            if case.multi_thread { "multi-thread" } else { "current-thread" },
+            got.0, got.1, want.0, want.1, missing, differing, example.unwrap_or_default()
+        ));
+    }
+    for (i, g) in &sampled {
+        let (k, h) = &keys[*i];
+        let w = expected_answer(&truth, k, *h);
+        if w != *g {
+            return Err(format!("{} {:?} answers {} but the merge of what is persisted is {}", if *h { "HGETALL" } else { "GET" }, k, g.show(), w.show()));
+        }
+    }
+    let visible = keys
+        .iter()
+        .filter(|(k, h)| !matches!(expected_answer(&truth, k, *h), Reply::Nil) && expected_answer(&truth, k, *h) != Reply::Array(vec![]))
+        .count();
+    if dbsize != Reply::Int(visible as i64) {
+        return Err(format!("DBSIZE answers {} but {} persisted keys are visible", dbsize.show(), visible));
+    }
+    ctx.nontrivial(case);
+    Ok(())
+}
+
 // ---------------------------------------------------------------------------------------
 // recovery racing with a concurrent writer of the same store
 // ---------------------------------------------------------------------------------------
@@ -1652,6 +1922,8 @@ fn main() {
     s.run_cases("boundary", s.scale(1_400, 60_000), boundary_case, check_boundary);
     s.describe_check("lifecycle", "1-3 process lifetimes over one store wired as the binary does (recover, start_workers, set_delta_sink, commands, graceful shutdown): what a restarted node serves = what the previous process served last; non-trivial = >= 2 sessions with writes");
     s.run_cases("lifecycle", s.scale(400, 12_000), life_case, check_lifecycle);
+    s.describe_check("scale", "fixed size, not work-factor scaled: 70 000 / 100 000 / 150 000 distinct keys (checkpoint of 20-25k keys over compacted segments, 40-60 live segments, a WAL tail) and 100 000 updates on 100 keys, recovered in one burst through StreamingIntegration::recover + the binary's WAL replay into a fresh node on a current-thread and on a multi-thread runtime; snapshot_state() count + checksum over sorted (key, value, stamps), sampled GET/HGETALL, DBSIZE vs the ground-truth fold");
+    s.run_enumerated("scale", scale_cases().into_iter(), check_scale);
     s.describe_check(
         "race",
         "one arrangement; a concurrent writer (real Compactor::compact / StreamingPersistence::flush / checkpoint install + manifest compaction) runs before EVERY store call index of recover(), recover_with_progress() and recover_with_wal(): Err (then an undisturbed retry holds everything) or a state that holds everything persisted before recovery started; non-trivial = the writer ran after the manifest read and before the last call, >= 2 listed segments",
